@@ -118,6 +118,7 @@ class OptimizeResult(dict):
         if (
             bads.optim_state["uncertainty_handling_level"] > 0
             and bads.options["noise_final_samples"] > 0
+            and "yval_vec" in bads.optim_state
         ):
             self["yval_vec"] = bads.optim_state["yval_vec"].copy()
         else:
@@ -126,6 +127,7 @@ class OptimizeResult(dict):
         if (
             bads.options["specify_target_noise"]
             and bads.options["noise_final_samples"] > 0
+            and "ysd_vec" in bads.optim_state
         ):
             self["ysd_vec"] = bads.optim_state["ysd_vec"]
         else:
